@@ -210,4 +210,14 @@ PROPS = {
             {"name": "c13.histories", "pkg": ROUTING, "test": "TestVerifC13Histories", "shards_t": 16, "shards_q": 6, "crash_is_violation": True},
         ],
     },
+    "C06": {
+        "level": "exploration",
+        "technique": "rapid property test on the node simulator: block-by-block differential between the accepted encoding and the bytes serialised inside the scripted convergence layer, with the independent CBOR reader; time bracket for the age growth",
+        "level_text": "Generated bundles are received by a real Core, wait for a generated residence time, and are transmitted (with 0..2 failing attempts first); every captured transmission is diffed against the accepted encoding. Refusal cases (hop limit, lifetime by time or by age, unsupported block demanding deletion) must neither be transmitted nor kept.",
+        "level_note": "no fake clock: residence times are real sleeps (0..1500 ms), age growth is judged against a bracket of harness clock readings (+-2 ms), expiry within 60 ms of the instant is not asserted; block order is not asserted",
+        "assumptions": ["bundles are received ones (locally submitted ones get their sequence number from the node, C14)"],
+        "units": [
+            {"name": "c06.forwarding", "pkg": ROUTING, "test": "TestVerifC06Forwarding", "shards_t": 16, "shards_q": 8, "crash_is_violation": True},
+        ],
+    },
 }
